@@ -163,16 +163,16 @@ def run (c : Case) : String :=
       let n := ((ps.headD "0").toInt?).getD 0
       let cap := ((c.getD "cap" "0").toNat?).getD 0
       -- the harness puts every item in its own array: 4 sentinel bytes, the data, `cap` spare bytes
-      let fixed := c.getD "model" "pinned" == "fixed"   -- the table row is the repaired one
       let written := items.any (fun bs =>
         let h := List.replicate 4 238 ++ bs ++ List.replicate cap 238
-        let r := if fixed then Text.ellipsisBFixed h ⟨4, bs.length, bs.length + cap⟩ n else Text.ellipsisB h ⟨4, bs.length, bs.length + cap⟩ n
-        r.1 != h)
+        (Text.ellipsisB h ⟨4, bs.length, bs.length + cap⟩ n).1 != h)
       s!"{res (runM (liftMap (fun bs => Hex.mk (Text.ellipsis bs n))) items end_)} mut={if written then 1 else 0}"
     | "sort.Sort" | "sort.SortFunc" | "sort.SortStableFunc" =>
       let lt := sortLt (ps.headD "bykey")
       let xs := items.map intOfItem
-      let sorter := Sort.sortSlice (Sort.stableSort lt) lt
+      -- Sort / SortFunc: sort.Slice (above 12 elements the stable sort stands in for pdqsort and only
+      -- keys + bag are compared); SortStableFunc: sort.SliceStable
+      let sorter := if op == "sort.SortStableFunc" then Sort.stableSort lt else Sort.sortSlice (Sort.stableSort lt) lt
       let out := runM (Sort.sortM sorter) xs end_
       if end_ == "C" then
         let sorted := sorter xs
@@ -181,12 +181,9 @@ def run (c : Case) : String :=
     | "stdio.NewIOReader" =>
       let data := items.headD []
       let script := readScript data (parsePlan (c.getD "p" "std") data.length) (c.getD "fin" "eof")
-      if c.getD "model" "pinned" == "fixed" then
-        let r := Reader.ioReaderFixed [] script
-        s!"{res (clip (renderChunks r.1 (termStr r.2)))} retained={clip (renderChunks r.1 none)}"
-      else
-        let r := Reader.runIOReader script
-        s!"{res (clip (renderChunks r.delivered (termStr r.term)))} retained={clip (renderChunks r.retained none)}"
+      -- `retained`: what an observer that kept the chunks sees after the run (fresh arrays: the chunks)
+      let r := Reader.runIOReader script
+      s!"{res (clip (renderChunks r.chunks (termStr r.term)))} retained={clip (renderChunks r.chunks none)}"
     | _ => unmodelled
 
 end Ro.Driver.Drivers.Plugin
